@@ -524,6 +524,8 @@ class BaseParser:
 
         if dependencies:
             dependant = set(result)
+            # a dependency that was given but failed to parse is reported as that failure, not as absent
+            dependant.update(attempted)
             if excluded_keys:
                 dependant.update(excluded_keys)
 
@@ -580,6 +582,7 @@ class BaseParser:
         used_alias = set()
         dependencies = set()
         unprovided_fields = set()
+        attempted = set()
         options = context.options
 
         for key, field in self.fields.items():
@@ -631,6 +634,7 @@ class BaseParser:
 
             used_alias.update(field.all_aliases)
 
+            attempted.add(name)
             parsed = field.parse_value(value, context=context)
             if unprovided(parsed):
                 continue
@@ -643,6 +647,8 @@ class BaseParser:
 
         if dependencies:
             dependant = set(result)
+            # a dependency that was given but failed to parse is reported as that failure, not as absent
+            dependant.update(attempted)
             if excluded_keys:
                 dependant.update(excluded_keys)
 
